@@ -5,7 +5,9 @@ import lxml.etree as ET
 
 URI = "http://www.omg.org/space/xtce"
 # the last three prefixes are adversarial: they are themselves (the beginning of) XTCE element names
-CONVENTIONS = ["prefix-xtce", "prefix-q7", "default-ns", "no-ns", "prefix-Unit", "prefix-P", "prefix-SequenceContainer"]
+# prefixes: the usual one, another one, names that are themselves (the beginning of) XTCE element names, and legal NCNames that are not
+# identifiers (a hyphen, dots)
+CONVENTIONS = ["prefix-xtce", "prefix-q7", "default-ns", "no-ns", "prefix-Unit", "prefix-P", "prefix-SequenceContainer", "prefix-xtce-1.2", "prefix-omg.xtce_v2"]
 
 
 def L(tag):
